@@ -31,6 +31,8 @@ struct CallInfo {
     pub(crate) iteration: usize,
     pub(crate) meta_info: ForInMetaInfo,
     pub(crate) line_context_name: String,
+    /// depth of the function call stack when the loop was entered
+    pub(crate) call_depth: usize,
 }
 
 fn serialize_forin_meta_info(
@@ -81,6 +83,10 @@ fn serialize_call_info(call_info: &CallInfo, sub_state: &mut HashMap<String, Sta
         "line_context_name".to_string(),
         StateValue::String(call_info.line_context_name.clone()),
     );
+    sub_state.insert(
+        "call_depth".to_string(),
+        StateValue::UnsignedNumber(call_info.call_depth),
+    );
 }
 
 fn deserialize_call_info(sub_state: &mut HashMap<String, StateValue>) -> Option<CallInfo> {
@@ -109,10 +115,19 @@ fn deserialize_call_info(sub_state: &mut HashMap<String, StateValue>) -> Option<
         None => return None,
     };
 
+    let call_depth = match sub_state.get("call_depth") {
+        Some(state_value) => match state_value {
+            StateValue::UnsignedNumber(value) => *value,
+            _ => return None,
+        },
+        None => return None,
+    };
+
     Some(CallInfo {
         iteration,
         meta_info,
         line_context_name,
+        call_depth,
     })
 }
 
@@ -220,6 +235,7 @@ fn pop_call_info_for_line(
     recursive: bool,
 ) -> Option<CallInfo> {
     let line_context_name = get_line_context_name(state);
+    let call_depth = function::get_call_stack_depth(state);
     let forin_state = get_core_sub_state_for_command(state, FORIN_STATE_KEY.to_string());
     let call_info_stack = get_list(CALL_STACK_STATE_KEY.to_string(), forin_state);
 
@@ -230,6 +246,7 @@ fn pop_call_info_for_line(
                     Some(call_info) => {
                         if (call_info.meta_info.start == line || call_info.meta_info.end == line)
                             && call_info.line_context_name == line_context_name
+                            && call_info.call_depth == call_depth
                         {
                             Some(call_info)
                         } else if recursive {
@@ -255,6 +272,23 @@ fn store_call_info(call_info: &CallInfo, state: &mut HashMap<String, StateValue>
     let mut call_info_state = HashMap::new();
     serialize_call_info(call_info, &mut call_info_state);
     call_info_stack.push(StateValue::SubState(call_info_state));
+}
+
+/// Drops the loops which were entered by function calls that already ended (loops left by return).
+pub(crate) fn remove_call_info_above_depth(
+    call_depth: usize,
+    state: &mut HashMap<String, StateValue>,
+) {
+    let forin_state = get_core_sub_state_for_command(state, FORIN_STATE_KEY.to_string());
+    let call_info_stack = get_list(CALL_STACK_STATE_KEY.to_string(), forin_state);
+
+    call_info_stack.retain(|state_value| match state_value {
+        StateValue::SubState(call_info_state) => match call_info_state.get("call_depth") {
+            Some(StateValue::UnsignedNumber(value)) => *value <= call_depth,
+            _ => true,
+        },
+        _ => true,
+    });
 }
 
 fn get_next_iteration(
@@ -328,11 +362,13 @@ impl Command for ForInCommand {
                     match forin_meta_info_result {
                         Ok(forin_meta_info) => {
                             let line_context_name = get_line_context_name(context.state);
+                            let call_depth = function::get_call_stack_depth(context.state);
 
                             CallInfo {
                                 iteration: 0,
                                 meta_info: forin_meta_info,
                                 line_context_name,
+                                call_depth,
                             }
                         }
                         Err(error) => return CommandResult::Crash(error.to_string()),
@@ -341,6 +377,7 @@ impl Command for ForInCommand {
             };
 
             let iteration = call_info.iteration;
+            let call_depth = call_info.call_depth;
             let forin_meta_info = call_info.meta_info;
 
             let handle = &context.arguments[2];
@@ -353,6 +390,7 @@ impl Command for ForInCommand {
                             iteration: iteration + 1,
                             meta_info: forin_meta_info,
                             line_context_name,
+                            call_depth,
                         },
                         context.state,
                     );
